@@ -35,7 +35,7 @@ CONSTANTS Accepted,      \* accepted setup-file versions, e.g. {"v1", "v2"}
           RecordHist,    \* TRUE: keep the action history (simulation walks); FALSE: exhaustive graph
           MaxHist,
           FlagSets,      \* the flag records explored by Run
-          EnvActions     \* which environment actions are enabled: subset of {"edit","crash","corrupt","blockD","blockC","remove"}
+          EnvActions     \* which environment actions are enabled: subset of {"edit","crash","corrupt","extend","blockD","blockC","remove"}
 
 Versions == Accepted \cup Rejected
 Accepts(v) == v \in Accepted
@@ -84,6 +84,12 @@ Edit(v) == /\ Room /\ Env("edit") /\ v # setup /\ setup' = v
 Crash(k) == /\ Room /\ Env("crash") /\ \E v \in Accepted : outD = Gen(v) /\ outD' = Trunc(v, k)
             /\ UNCHANGED <<setup, outC, logD, logC, rest, last>>
             /\ Record([a |-> "crash", k |-> k])
+
+\* something appended to the output: the previous content EXTENDS what a run would write
+\* (e.g. the output of an older setup file that had one more method at the end)
+Extend == /\ Room /\ Env("extend") /\ \E v \in Accepted : outD = Gen(v) /\ outD' = "ext:" \o v
+          /\ UNCHANGED <<setup, outC, logD, logC, rest, last>>
+          /\ Record([a |-> "extend"])
 
 \* something else damaged the output file (same package, broken or ill-typed Go)
 Corrupt(g) == /\ Room /\ Env("corrupt") /\ outD \notin Blocked /\ outD # g /\ outD' = g
@@ -142,6 +148,7 @@ Next == \/ \E v \in Versions : Edit(v) /\ Emit([a |-> "edit", v |-> v])
         \/ \E f \in FlagSets, sp \in Spellings, cwd \in Cwds : Run(f, sp, cwd) /\ Emit([a |-> "run", f |-> f, sp |-> sp, cwd |-> cwd])
         \/ \E k \in TruncPoints : Crash(k) /\ Emit([a |-> "crash", k |-> k])
         \/ \E g \in Garbage : Corrupt(g) /\ Emit([a |-> "corrupt", g |-> g])
+        \/ Extend /\ Emit([a |-> "extend"])
         \/ BlockD /\ Emit([a |-> "blockD"])
         \/ \E b \in Blocked : BlockC(b) /\ Emit([a |-> "blockC", b |-> b])
         \/ Remove /\ Emit([a |-> "remove"])
